@@ -49,7 +49,8 @@ CFG = {
         'the full statement (C06_statement: Spec.decode bs = some (S, rest) -> both decoders return a WF value with elems = S and the same rest) is NOT proved',
         "proved: C06_standard_partial (the decoders invert the reference encoder on the standard encoding of any WF value's elements, with arbitrary trailing bytes; modulo Kernel.bitmap_toArray) and C06_checked_wf_partial (whatever the checked decoder accepts is WF; modulo Kernel.runStore_wf)",
         "streams with run chunks, the offset-less header, non-canonical chunk kinds: covered by the correspondence against the independent conformant encoder and the driver's run-time !SPEC cross-check (elems (decode s) = Spec.decode s) only; need the Store.insert_range / BitmapStore kernel lemmas",
-        'the 64-bit portable format is handled by the treemap family',
+        '64-bit portable format: the full statement C06_t_statement (Spec.decode64 bs = some (S, rest) on a byte string -> both treemap decoders return a well-formed value with elems = S and the same rest) is NOT proved; proved: C06_t_standard_partial (the decoders invert Spec.encode64 on the elements of any well-formed treemap, arbitrary trailing bytes; modulo the 32-bit Kernel.bitmap_toArray) and C06_t_checked_wf_partial (modulo the 32-bit Kernel.runStore_wf); streams with inner run chunks / offset-less headers / empty buckets / are covered by the correspondence against the independent encoder (profile C06T, teq with the natively built treemap + expect true) and the run-time !SPEC cross-check only',
+        'SpecCodec64.lean decisions: keys strictly ascending (descending / repeated keys are not conformant although the crate accepts them), a bucket holding the empty set is conformant and contributes nothing (CRoaring writes such buckets)',
     ],
     "level_text": "Lean 4 theorem that every stream accepted by the strict reference decoder Spec.decode (written from the "
                   "format specification, cross-validated against the upstream golden files and an independent Rust "
@@ -58,5 +59,5 @@ CFG = {
                   "from an independent encoder.",
     "level_note": "Trusted: Lean kernel; SpecCodec.lean as the reading of RoaringFormatSpec (adjacent runs accepted, declared "
                   "cardinalities and offsets must be exact); model mirrors serialization.rs (correspondence only). Partial: "
-                  "see proof_gaps. 32-bit half only.",
+                  "see proof_gaps.",
 }
